@@ -142,6 +142,7 @@ func WithSLogRecovery(status int, l *slog.Logger) Option {
 //
 // 可多次调用，表示同时指定了多个。
 func WithInterceptor(f InterceptorFunc, rule ...string) Option {
+	rule = slices.Clone(rule) // Option 可能在之后才被使用，不能保留调用方的 rule。
 	return func(o *options) { o.interceptors.Add(f, rule...) }
 }
 
@@ -173,6 +174,9 @@ func WithWordInterceptor(rule string) Option { return WithInterceptor(syntax.Mat
 //
 // [跨域请求]: https://developer.mozilla.org/zh-CN/docs/Web/HTTP/cors
 func WithCORS(origin []string, allowHeaders []string, exposedHeaders []string, maxAge int, allowCredentials bool) Option {
+	// 不能保留调用方的切片，调用方可能会在之后修改其内容，这些内容在每次请求时都会被读取。
+	origin, allowHeaders, exposedHeaders = slices.Clone(origin), slices.Clone(allowHeaders), slices.Clone(exposedHeaders)
+
 	return func(o *options) {
 		o.cors = &cors{
 			Origins:          origin,
